@@ -176,7 +176,7 @@ def netlist_shapes(tier):
         types = [L[x] for x in seq]
         if schem.space(types, i, o) > 0:
             res.append((''.join(seq), i, o, 0))
-            if i == 2 and len(seq) <= 2:
+            if i == 2 and len(seq) <= 2 and (o <= 1 or tier != 'quick'):
                 res.append((''.join(seq), i, o, 1))         # both in-ports on one wire
     return res
 
